@@ -14,6 +14,15 @@ import (
 // C02 — header/payload partition, SetPayload, creation helpers.
 
 // optional-field combinations: all 32 presence subsets x private/extension lengths {0,1,3}
+// c02ExtData: n extension bytes; n == 0 is an extension that is PRESENT and empty (c03Data hands out nil for
+// that, which the reference model reads as "no extension").
+func c02ExtData(n int) []byte {
+	if n == 0 {
+		return []byte{}
+	}
+	return c03Data(0xE0, n)
+}
+
 type c02Combo struct {
 	af   ref.AF
 	name string
@@ -51,7 +60,7 @@ func init() {
 					a.Private = c03Data(0xA0, p)
 				}
 				if e >= 0 {
-					a.Ext = c03Data(0xE0, e)
+					a.Ext = c02ExtData(e)
 				}
 				c02Combos = append(c02Combos, c02Combo{a, c03Show(&a)})
 			}
@@ -80,7 +89,7 @@ func init() {
 					a.Splice = []byte{byte(0xF0 | mask)}
 				}
 				if e >= 0 {
-					a.Ext = c03Data(0xE0, e)
+					a.Ext = c02ExtData(e)
 				}
 				if mask&2 != 0 {
 					a.Private = []byte{}
@@ -94,7 +103,7 @@ func init() {
 					if room < 0 || room > 255 {
 						continue
 					}
-					a.Ext = c03Data(0xE0, room)
+					a.Ext = c02ExtData(room)
 				}
 				c02Combos = append(c02Combos, c02Combo{a, c03Show(&a)})
 			}
